@@ -41,25 +41,9 @@ def PrimsExact (α A : Type) [CommRing α] [Amp α A] (tbl : Table) (noCheck : L
 "gather the listed operators, apply the gate's rule, scatter the result back" -/
 def EmbedExact (α A : Type) [CommRing α] [Amp α A] : Prop :=
   ∀ (n : Nat) (bits : List Nat) (M : LMat α) (Q L L' : List Pauli) (flip : Bool),
-    bits.Nodup → (∀ b ∈ bits, b < n) → Q.length = n → WF (2 ^ bits.length) (2 ^ bits.length) M →
+    validBits n bits = true → Q.length = n → WF (2 ^ bits.length) (2 ^ bits.length) M →
     gather Q bits = some L → L'.length = bits.length → Intertwines A M L flip L' →
     Intertwines A (embed n bits M) Q flip (scatter Q bits L')
-
-/-! ## well-formed terms -/
-
-mutual
-/-- every sub-gate of every composite acts on as many distinct in-range local qubits as it has -/
-def WFTerm {P : Type} : GateTerm P → Prop
-  | .C g => WFTerm g
-  | .Kron g0 g1 => WFTerm g0 ∧ WFTerm g1
-  | .Composite _ n ops => WFOps n ops
-  | .Loop _ _ _ n body => WFOps n body
-  | _ => True
-def WFOps {P : Type} (n : Nat) : OpList P → Prop
-  | .nil => True
-  | .cons g bits rest =>
-    WFTerm g ∧ nrBits g = bits.length ∧ (∀ b ∈ bits, b < n) ∧ bits.Nodup ∧ WFOps n rest
-end
 
 /-! ## list lemmas for gather / scatter -/
 
@@ -121,11 +105,11 @@ variable (tbl : Table) (noCheck : List String) (hp : PrimsExact α A tbl noCheck
 include hp hE
 
 mutual
-theorem term_exact : (g : GateTerm A) → WFTerm g → isStabilizerT tbl g = true →
+theorem term_exact : (g : GateTerm A) → Spec.WF g → isStabilizerT tbl g = true →
     TermExact (α := α) tbl noCheck g
   | .C g, _, hs => by simp [isStabilizerT] at hs
   | .Kron g0 g1, hw, hs => by
-    simp only [WFTerm] at hw
+    simp only [Spec.WF] at hw
     simp only [isStabilizerT, Bool.and_eq_true] at hs
     have e0 := term_exact g0 hw.1 hs.1
     have e1 := term_exact g1 hw.2 hs.2
@@ -145,33 +129,33 @@ theorem term_exact : (g : GateTerm A) → WFTerm g → isStabilizerT tbl g = tru
       · have := kron_intertwines e0.wf e1.wf hl0 l0 hl1 l1 i0 i1
         rwa [List.take_append_drop] at this
   | .Composite nm n body, hw, hs => by
-    simp only [WFTerm] at hw
+    simp only [Spec.WF] at hw
     simp only [isStabilizerT] at hs
     refine ⟨?_, ?_⟩
     · simp only [nrBits, specMatrix]
-      obtain ⟨_, _, _, _, _, hwf⟩ := ops_exact body n hw hs (LMat.identity (2 ^ n)) (wf_identity _)
+      obtain ⟨_, _, _, _, _, hwf⟩ := ops_exact body n hw.2 hs (LMat.identity (2 ^ n)) (wf_identity _)
         (List.replicate n .I) (List.replicate n .I) false (by simp) (by simp)
         (identity_intertwines (by simp))
       exact hwf
     · intro ops hl
       simp only [nrBits] at hl
-      obtain ⟨f', Q', hc, hl', hi, _⟩ := ops_exact body n hw hs (LMat.identity (2 ^ n)) (wf_identity _)
+      obtain ⟨f', Q', hc, hl', hi, _⟩ := ops_exact body n hw.2 hs (LMat.identity (2 ^ n)) (wf_identity _)
         ops ops false hl hl (identity_intertwines hl)
       exact ⟨f', Q', by simp only [conjugateT, hl, ne_eq, not_true_eq_false, ↓reduceIte, hc], hl',
         by simpa only [specMatrix] using hi⟩
   | .Loop label iters nm n body, hw, hs => by
-    simp only [WFTerm] at hw
+    simp only [Spec.WF] at hw
     simp only [isStabilizerT] at hs
     have hbody : WF (2 ^ n) (2 ^ n) (specOps body n (LMat.identity (2 ^ n)) : LMat α) ∧
         RuleExact A (specOps body n (LMat.identity (2 ^ n)) : LMat α) n
           (fun p => if p.length ≠ n then .error (.invalidNrBits p.length n) else conjOpsT tbl noCheck body p false) := by
       refine ⟨?_, ?_⟩
-      · obtain ⟨_, _, _, _, _, hwf⟩ := ops_exact body n hw hs (LMat.identity (2 ^ n)) (wf_identity _)
+      · obtain ⟨_, _, _, _, _, hwf⟩ := ops_exact body n hw.2 hs (LMat.identity (2 ^ n)) (wf_identity _)
           (List.replicate n .I) (List.replicate n .I) false (by simp) (by simp)
           (identity_intertwines (by simp))
         exact hwf
       · intro ops hl
-        obtain ⟨f', Q', hc, hl', hi, _⟩ := ops_exact body n hw hs (LMat.identity (2 ^ n)) (wf_identity _)
+        obtain ⟨f', Q', hc, hl', hi, _⟩ := ops_exact body n hw.2 hs (LMat.identity (2 ^ n)) (wf_identity _)
           ops ops false hl hl (identity_intertwines hl)
         exact ⟨f', Q', by simp only [hl, ne_eq, not_true_eq_false, ↓reduceIte, hc], hl', hi⟩
     refine ⟨?_, ?_⟩
@@ -206,7 +190,7 @@ theorem term_exact : (g : GateTerm A) → WFTerm g → isStabilizerT tbl g = tru
   | .Swap, _, hs => ⟨(hp .Swap trivial hs).1, (hp .Swap trivial hs).2⟩
 /-- the sub-gate loop of a composite: `acc` is the product of the factors applied so far, which
 carried `Q0` to `± Q` -/
-theorem ops_exact : (l : OpList A) → (n : Nat) → WFOps n l → allStabT tbl l = true →
+theorem ops_exact : (l : OpList A) → (n : Nat) → Spec.WFOps n l → allStabT tbl l = true →
     ∀ (acc : LMat α), WF (2 ^ n) (2 ^ n) acc → ∀ (Q0 Q : List Pauli) (f0 : Bool), Q0.length = n → Q.length = n →
       Intertwines A acc Q0 f0 Q →
       ∃ f' Q', conjOpsT tbl noCheck l Q f0 = .ok (f', Q') ∧ Q'.length = n ∧
@@ -214,8 +198,9 @@ theorem ops_exact : (l : OpList A) → (n : Nat) → WFOps n l → allStabT tbl 
   | .nil, n, _, _, acc, hacc, Q0, Q, f0, _, hQ, hi =>
     ⟨f0, Q, by simp [conjOpsT], hQ, by simpa [specOps] using hi, by simpa [specOps] using hacc⟩
   | .cons g bits rest, n, hw, hs, acc, hacc, Q0, Q, f0, hQ0, hQ, hi => by
-    simp only [WFOps] at hw
-    obtain ⟨hwg, hnb, hrange, hnodup, hwrest⟩ := hw
+    simp only [Spec.WFOps] at hw
+    obtain ⟨hwg, hnb, hvalid, hwrest⟩ := hw
+    have hrange : ∀ b ∈ bits, b < n := ((Q1t.Proofs.BitPerm.validBits_iff n bits).1 hvalid).1
     simp only [allStabT, Bool.and_eq_true] at hs
     have eg := term_exact g hwg hs.1
     obtain ⟨L, hL, hLlen⟩ := gather_some Q bits (by rw [hQ]; exact hrange)
@@ -223,7 +208,7 @@ theorem ops_exact : (l : OpList A) → (n : Nat) → WFOps n l → allStabT tbl 
     have hM : WF (2 ^ bits.length) (2 ^ bits.length) (specMatrix g : LMat α) := by
       rw [← hnb]; exact eg.wf
     have hemb : Intertwines A (embed n bits (specMatrix g : LMat α)) Q fl (scatter Q bits L') :=
-      hE n bits _ Q L L' fl hnodup hrange hQ hM hL (by rw [hl', hnb]) hiL
+      hE n bits _ Q L L' fl hvalid hQ hM hL (by rw [hl', hnb]) hiL
     have hEwf : WF (2 ^ n) (2 ^ n) (embed n bits (specMatrix g : LMat α)) :=
       Q1t.Proofs.Route.embed_wf n bits _
     have hsl : (scatter Q bits L').length = n := by rw [scatter_length, hQ]
